@@ -78,12 +78,12 @@ pub mod vsync {
 }
 verus! {
 // Option / Result combinators vstd lacks
-pub assume_specification<T, F: FnOnce() -> Option<T>> [Option::<T>::or_else] (o: Option<T>, f: F) -> (r: Option<T>)
+pub assume_specification<T, F: FnOnce() -> std::option::Option<T>> [std::option::Option::<T>::or_else] (o: std::option::Option<T>, f: F) -> (r: std::option::Option<T>)
     requires o is None ==> f.requires(()),
     ensures o is Some ==> r == o, o is None ==> f.ensures((), r);
-pub assume_specification<T> [Option::<T>::or] (a: Option<T>, b: Option<T>) -> (r: Option<T>)
+pub assume_specification<T> [std::option::Option::<T>::or] (a: std::option::Option<T>, b: std::option::Option<T>) -> (r: std::option::Option<T>)
     ensures r == (if a is Some { a } else { b });
-pub assume_specification<T, E, F: FnOnce(E) -> T> [Result::<T, E>::unwrap_or_else] (o: Result<T, E>, f: F) -> (r: T)
+pub assume_specification<T, E, F: FnOnce(E) -> T> [std::result::Result::<T, E>::unwrap_or_else] (o: std::result::Result<T, E>, f: F) -> (r: T)
     requires o matches Err(e) ==> f.requires((e,)),
     ensures o matches Ok(x) ==> r == x, o matches Err(e) ==> f.ensures((e,), r);
 }
